@@ -314,6 +314,12 @@ class Executor:
                 return Agg("variant", alts[0][1])
             n = len(alts[0][1])
             return Agg("variant", [merge_values([(c, f[i]) for c, f in alts]) for i in range(n)])
+        if p == "coords":
+            if isinstance(v, Agg) and v.kind == "struct:Point":
+                return Agg("struct:Vec2", list(v.fields))
+            if isinstance(v, Agg) and v.fields:
+                return v.fields[0]
+            raise Unsupported("coords of %r" % (v,))
         if isinstance(v, Agg):
             if p >= len(v.fields):
                 raise Unsupported("field %r out of range in %r" % (p, v))
